@@ -225,7 +225,7 @@ func genC05(r *rt.Rand, tier string, idx int) *world.Scenario {
 	if r.Chance(0.15) {
 		sc.Engine = "badger"
 	}
-	sc.Inactive = swarmSites(r, "seq.cache", "seq.bcast", "watch.subscribed", "watch.cacheread", "hub.recv")
+	sc.Inactive = swarmSites(r, "seq.cache", "seq.bcast", "seq.sent", "watch.enter", "watch.subscribed", "watch.cacheread", "hub.recv")
 	keys := []string{prefix + "/a", prefix + "/a/b", prefix + "/pods/ns/p1", prefix + "/b"}
 	wp := watchPrefixes
 	if idx%10 == 3 {
